@@ -19,13 +19,14 @@ OBLIGATIONS = [
     limb("copy_cond", "h_copy_cond", "copy_conditional/copy/set_zero/set_one"),
     limb("bytes", "h_bytes", "from_bytes big-endian; to_bytes inverts"),
     limb("to_bytes", "h_to_bytes", "to_bytes big-endian"),
-    limb("modp_add", "h_modp_add", "modp_add = a+b mod p, reduced, for all a,b<p"),
-    limb("modn_add", "h_modn_add", "modn_add = a+b mod n"),
-    limb("modp_sub", "h_modp_sub", "modp_sub = a-b mod p"),
-    limb("modn_sub", "h_modn_sub", "modn_sub = a-b mod n"),
+    limb("modp_add", "h_modp_add", backend="cadical", title="modp_add = a+b mod p, reduced, for all a,b<p"),
+    limb("modn_add", "h_modn_add", backend="cadical", title="modn_add = a+b mod n"),
+    limb("modp_sub", "h_modp_sub", backend="cadical", title="modp_sub = a-b mod p"),
+    limb("modn_sub", "h_modn_sub", backend="cadical", title="modn_sub = a-b mod n"),
     limb("modp_neg", "h_modp_neg", "modp_neg = -a mod p, reduced"),
     limb("modn_neg", "h_modn_neg", "modn_neg = -a mod n, reduced"),
-    limb("modp_dbl_tri", "h_modp_dbl_tri", "modp_dbl/tri"),
+    limb("modp_dbl", "h_modp_dbl", "modp_dbl = 2a mod p", backend="cadical"),
+    limb("modp_tri", "h_modp_tri", "modp_tri = 3a mod p", backend="cadical"),
     limb("modp_haf", "h_modp_haf", "modp_haf = a/2 mod p"),
     limb("booth5", "h_booth", "Booth w=5 digits reconstruct k (52 windows)", defs=["-DBOOTH_W=5"]),
     limb("booth7", "h_booth", "Booth w=7 digits reconstruct k (37 windows)", defs=["-DBOOTH_W=7"]),
